@@ -598,6 +598,48 @@ theorem dvectApi_type_iff (v : M3 K) (pbc : List Int) (a0 a1 : PosArg K) :
     | flat q => cases hb : broadcast l [q] <;> cases hf : apiFlags pbc <;> simp [dvectApi, apiPairs, hf, hb]
     | rows l' => cases hb : broadcast l l' <;> cases hf : apiFlags pbc <;> simp [dvectApi, apiPairs, hf, hb]
 
+/-- independence of representation: a point handed over as a flat `(3,)` value and as a one-row `(1,3)` array are the same
+    argument, on either side, for `dvect` and `dmag`. -/
+theorem dvectApi_flat_eq_rows (v : M3 K) (pbc : List Int) (p : V3 K) (a : PosArg K) :
+    dvectApi v pbc (.flat p) a = dvectApi v pbc (.rows [p]) a ∧ dvectApi v pbc a (.flat p) = dvectApi v pbc a (.rows [p]) ∧
+    dmag2Api v pbc (.flat p) a = dmag2Api v pbc (.rows [p]) a ∧ dmag2Api v pbc a (.flat p) = dmag2Api v pbc a (.rows [p]) := by
+  have h1 : apiPairs (.flat p) a = apiPairs (.rows [p]) a := by
+    cases a <;> simp [apiPairs, broadcast]
+  have h2 : apiPairs a (.flat p) = apiPairs a (.rows [p]) := by
+    cases a with
+    | scalar => rfl
+    | rank3 n => rfl
+    | flat q => simp [apiPairs, broadcast]
+    | rows l => rfl
+  simp [dvectApi, dmag2Api, h1, h2]
+
+/-- REFUSAL CLASSES, complete: a refused call raises a TypeError or a ValueError — or `pbc` has fewer than three entries
+    (an unchecked read in the real code, outside the model); with at least three flags a ValueError is raised exactly when no
+    argument is 0-d and the call is not accepted. -/
+theorem dvectApi_error_class (v : M3 K) (pbc : List Int) (a0 a1 : PosArg K) (e : String)
+    (h : dvectApi v pbc a0 a1 = .error e) :
+    e = "type" ∨ e = "value" ∨ (e = "undefined" ∧ pbc.length < 3) := by
+  unfold dvectApi at h
+  cases hp : apiPairs a0 a1 with
+  | error e' =>
+    rw [hp] at h
+    simp only [Except.error.injEq] at h
+    subst h
+    cases a0 <;> cases a1 <;> simp [apiPairs] at hp <;> first
+      | (left; exact hp.symm)
+      | (right; left; exact hp.symm)
+      | (right; left; revert hp; split <;> simp <;> intro hh <;> exact hh.symm)
+  | ok l =>
+    rw [hp] at h
+    cases hf : apiFlags pbc with
+    | some f => rw [hf] at h; cases h
+    | none =>
+      rw [hf] at h
+      simp only [Except.error.injEq] at h
+      right; right
+      refine ⟨h.symm, ?_⟩
+      rcases pbc with _ | ⟨a, _ | ⟨b, _ | ⟨c, t⟩⟩⟩ <;> simp [apiFlags] at hf ⊢
+
 /-- only the TRUTH VALUE of the first three flags matters: `1`, `2`, `-1`, `np.True_` are the same flag, entries beyond
     the third are never read. -/
 theorem dvectApi_flag_forms (v : M3 K) (a b c a' b' c' : Int) (rest rest' : List Int) (a0 a1 : PosArg K)
@@ -861,6 +903,25 @@ theorem disp_history (w : World K) (ops : List (Op K)) (w' : World K) (_hrun : w
     cases hb : w'.sysView s1 with
     | none => simp [ha, hb] at h
     | some b => simp only [ha, hb] at h; exact ⟨a, b, rfl, rfl, h⟩
+
+open Atomman.Generated in
+/-- after ANY history, `atomman.displacement(S0, S1, ref)` on the live objects is the `displacement` function AS THE SOURCE
+    READS NOW (generated), applied to what the two objects hold at the time of the call. -/
+theorem disp_source (w : World K) (ops : List (Op K)) (w' : World K) (_hrun : w.run ops = some w')
+    (s0 s1 : Nat) (a b : Sys K) (ha : w'.sysView s0 = some a) (hb : w'.sysView s1 = some b) (ref : String) :
+    w'.disp s0 s1 ref = DvectSource.displacement a b ref := by
+  rw [Source.gen_displacement_eq_model]
+  simp [World.disp, ha, hb]
+
+open Atomman.Generated in
+/-- after ANY history, `S.dvect(sel0, sel1)` / `S.dmag(sel0, sel1)` on the live object are the methods AS THE SOURCE READS NOW
+    (generated), applied to the positions, cell and flags the object holds at the time of the call. -/
+theorem sysDvect_source (w : World K) (ops : List (Op K)) (w' : World K) (_hrun : w.run ops = some w')
+    (s : Nat) (v : Sys K) (hv : w'.sysView s = some v) (s0 s1 : Sel K) :
+    w'.sysDvect s s0 s1 = DvectSource.sysDvect v.pos v.vects v.px v.py v.pz s0 s1 ∧
+    w'.sysDmag2 s s0 s1 = DvectSource.sysDmag v.pos v.vects v.px v.py v.pz s0 s1 := by
+  rw [Source.gen_sysDvect_eq_model, Source.gen_sysDmag_eq_model]
+  simp [World.sysDvect, World.sysDmag2, hv]
 
 theorem getElem?_setAt {α : Type} (l l' : List α) (i : Nat) (a : α) (h : setAt l i a = some l') :
     l'[i]? = some a ∧ (∀ j, j ≠ i → l'[j]? = l[j]?) ∧ l'.length = l.length := by
